@@ -512,6 +512,42 @@ class ClassRef:
         self.info = info
 
 
+class EnumVal(Native):
+    """a member of an enum class of the model (repository or data tables): ``name``, ``value`` (a record of the member's
+    parameter fields where the table has them), equal to itself only"""
+    _MEMO = {}
+
+    def __init__(self, info, member):
+        self.info, self.name = info, member
+        row = info.enum_members[member]
+        fields = getattr(row, 'fields', None)
+        if isinstance(fields, dict):
+            self.value = Obj(**{k: v for k, v in fields.items() if isinstance(k, str) and not k.startswith('__')})
+        elif isinstance(row, (int, str, bytes, bool, type(None))):
+            self.value = row
+        else:
+            self.value = Obj(unknown=True)
+
+    @classmethod
+    def of(cls, info, member):
+        key = (id(info), member)
+        if key not in cls._MEMO:
+            cls._MEMO[key] = cls(info, member)
+        return cls._MEMO[key]
+
+    def __eq__(self, other):
+        return self is other
+
+    def __ne__(self, other):
+        return self is not other
+
+    def __hash__(self):
+        return hash((id(self.info), self.name))
+
+    def __repr__(self):
+        return '%s.%s' % (getattr(self.info, 'name', '?'), self.name)
+
+
 def class_call_hook(cls, extra=None, model=None):
     """hook resolving ``cls.m(...)`` / ``self.m(...)`` through the static MRO of ``cls`` (a sa.model.ClassInfo) and
     evaluating the callee's body with the same hook; with ``model`` given, module level class names evaluate to ClassRef
@@ -564,7 +600,16 @@ def class_call_hook(cls, extra=None, model=None):
                     except Unsupported:
                         pass
             if outer is not None:
-                return outer(name)
+                try:
+                    return outer(name)
+                except Unsupported:
+                    if model is None or len(parts) != 2:
+                        raise
+            if model is not None and len(parts) == 2:
+                # a member of an enum class (repository or data tables) the rule's own model does not name
+                r = model.resolve_name(module, parts[0])
+                if r is not None and getattr(r, 'enum_members', None) and parts[1] in r.enum_members:
+                    return EnumVal.of(r, parts[1])
             raise Unsupported('free name %s' % name)
         nh.with_defaults = True
         return nh
